@@ -824,6 +824,26 @@ func (g *Gen) call(x *ssa.Call) {
 			g.inlineCall(x, f)
 			return
 		}
+		// a local closure (`helper := func(..) {..}` called directly, possibly through the local that holds it and
+		// is assigned exactly once): verified in place like any contract-less callee, its free variables bound to the
+		// captured locals of the caller
+		if mc := localClosure(cc.Value); mc != nil && !cc.IsInvoke() {
+			if f, ok := mc.Fn.(*ssa.Function); ok && len(f.Blocks) > 0 && len(f.FreeVars) == len(mc.Bindings) {
+				bound := true
+				for i, fv := range f.FreeVars {
+					sv, ok := g.env[mc.Bindings[i]]
+					if !ok {
+						bound = false
+						break
+					}
+					g.env[fv] = sv
+				}
+				if bound {
+					g.inlineCall(x, f)
+					return
+				}
+			}
+		}
 		name := "?"
 		if cc.IsInvoke() {
 			name = "(" + cc.Value.Type().String() + ")." + cc.Method.Name()
@@ -1205,6 +1225,40 @@ func (g *Gen) builtinAppend(x *ssa.Call) {
 
 // A callee in this module that has no contract is verified in place (its body is executed symbolically at the
 // call site), so that extracting a helper neither hides a change from the check nor raises a false alarm.
+// localClosure resolves a callee value to the MakeClosure it must be: the closure itself, or a load of a local that
+// is stored to exactly once, with a closure.
+func localClosure(v ssa.Value) *ssa.MakeClosure {
+	if mc, ok := v.(*ssa.MakeClosure); ok {
+		return mc
+	}
+	ld, ok := v.(*ssa.UnOp)
+	if !ok || ld.Op != token.MUL {
+		return nil
+	}
+	al, ok := ld.X.(*ssa.Alloc)
+	if !ok || al.Referrers() == nil {
+		return nil
+	}
+	var found *ssa.MakeClosure
+	for _, r := range *al.Referrers() {
+		switch u := r.(type) {
+		case *ssa.Store:
+			if u.Addr != al {
+				return nil // the address itself is stored somewhere
+			}
+			mc, ok := u.Val.(*ssa.MakeClosure)
+			if !ok || found != nil {
+				return nil
+			}
+			found = mc
+		case *ssa.UnOp, *ssa.DebugRef:
+		default:
+			return nil
+		}
+	}
+	return found
+}
+
 func (g *Gen) canInline(f *ssa.Function) bool {
 	if f == nil || len(f.Blocks) == 0 || f.Pkg == nil || !strings.HasPrefix(f.Pkg.Pkg.Path(), modPath) {
 		return false
